@@ -263,9 +263,11 @@ build() {
        ++ci) {
     CPPType *type = parser.parse_type(*ci);
     if (type == nullptr) {
+      // This happens for a type without a name, such as
+      // "forcetype struct { int a; }" in a .N file.
       cerr << "Failure to parse forcetype " << *ci << "\n";
+      continue;
     }
-    assert(type != nullptr);
     get_type(type, true);
   }
 
